@@ -109,7 +109,11 @@ def gen_param_design(rng, odd=False):
            ({"kind": "int", "v": 13}, {"kind": "bits_value", "n": 8, "v": 0x13})
     kv = {"kind": "int", "v": rng.randrange(0, 8)}
     pos = rng.choice([2, 3])
-    base = [rng.randrange(2), kv, {"kind": "none"}, {"kind": "int", "v": 0}, 2 if pos == 2 else 4, 1, {}]
+    if rng.random() < 0.35:
+      # parameter values that differ but HASH alike in CPython: hash(-1) == hash(-2)
+      a, b = {"kind": "int", "v": -1}, {"kind": "int", "v": -2}
+      pos = rng.choice([1, 1, 3])
+    base = [rng.randrange(2), kv, {"kind": "none"}, {"kind": "int", "v": 0}, {2: 2, 3: 4, 1: 0}[pos], 1, {}]
     for val in (a, b):
       c = list(base); c[pos] = val
       groups[rng.randrange(len(groups))].append(c)
